@@ -348,6 +348,15 @@ pub fn directed_texts(set: &str) -> Vec<(String, String)> {
                 // a write that fails leaves both views unchanged
                 v.push((format!("{mn}-out-of-range"), format!("stel a = [1, 2, 3]; {make} print({alias}); stel w_ = {alias}; w_[3] = 1; print(a)")));
             }
+            // a text changed in place is still the text it now spells: equal to a fresh one, ordered like it, as long
+            for (k, t) in ["stel s = \"kat\"; s[0] = \"r\"; [s == \"rat\", s != \"rat\", s == s, \"rat\" == s, s < \"rb\", s > \"ka\", lengte(s), s]",
+                           "stel s = \"kat\"; stel t = \"rat\"; s[0] = \"r\"; [s == t, t == s, s != t, [s] , string(s) == t, type(s)]",
+                           "stel s = \"abc\"; s[1] = \"é\"; [s == \"aéc\", lengte(s), s[1] == \"é\", s[2], s]",
+                           "stel s = \"aéc\"; s[1] = \"b\"; [s == \"abc\", lengte(s), s[1], s[2], s]",
+                           "functie zet(p) { p[0] = \"X\"; p == \"Xb\" }; stel s = \"ab\"; [zet(s), s == \"Xb\", s]",
+                           "stel a = [\"ab\"]; stel s = a[0]; s[0] = \"z\"; [s == \"zb\", a[0] == \"zb\", a[0] == s, a]"].iter().enumerate() {
+                v.push((format!("text-eq-{k}"), t.to_string()));
+            }
             // texts are values, not shared: a change through one name is not seen through another
             for (mn, make, alias) in [("stel", "stel b = s;", "b"), ("literal", "stel m = [s, s];", "m[0]"), ("index-assign", "stel m = [0]; m[0] = s;", "m[0]")] {
                 v.push((format!("text-{mn}"), format!("stel s = \"abc\"; {make} s[0] = \"x\"; print(s); print({alias}); [s, {alias}]")));
@@ -380,6 +389,11 @@ pub fn directed_texts(set: &str) -> Vec<(String, String)> {
                 v.push((format!("expr-{k}"), format!("{pre} stel r = {e}; print(\"r\"); [r, spoor_n, a, x]")));
                 v.push((format!("stmt-{k}"), format!("{pre} {e}; [spoor_n, a, x]")));
                 v.push((format!("fn-{k}"), format!("{pre} functie f(p, q) {{ stel l = {e}; [l, p, q] }}; [f(1, 2), spoor_n]")));
+            }
+            // what a function is worth when its last statement is not a plain expression
+            for (k, body) in ["n += 1", "n = n * 2", "stel t = n + 1", "stel t = 0; t = n + 5", "als n > 0 { n += 10 } anders { n -= 10 }",
+                              "als n > 0 { stel t = n; t += 1 }", "zolang n < 3 { n += 1 }", "{ n += 2 }", "a[0] = n", "a[0] = n; n"].iter().enumerate() {
+                v.push((format!("fn-last-{k}"), format!("stel a = [0]; functie f(n) {{ {body} }}; stel r = f(1); print(r); [r, f(-5), type(f(2)), a]")));
             }
             // what a program is worth when its last statement is not an expression
             for (k, last) in ["stel z = 3", "zolang nee { 1 }", "{ }", "{ 4 }", "als nee { 1 }", "functie g() { 1 }", "x = 9", "x += 1", "stel z = als ja { 6 }"].iter().enumerate() {
